@@ -262,14 +262,15 @@ def apply_mod(data, mod):
         shells = list(data.obasis.shells)
         # on the last centre, so that the shells stay sorted by centre (how a writer treats an
         # unsorted shell list is C01's subject)
-        new = Shell(max(sh.icenter for sh in shells), angs, ["c"] * ncol, exps, coeffs)
+        kinds_ = list(mod.get("kinds") or ["c"] * ncol)
+        new = Shell(max(sh.icenter for sh in shells), angs, kinds_, exps, coeffs)
         shells.append(new)
         # the object's own conventions must cover the new shell (on a copy: the dict may be a module table)
         from iodata.convert import HORTON2_CONVENTIONS
 
         conv = dict(data.obasis.conventions)
-        for l in angs:
-            conv.setdefault((l, "c"), list(HORTON2_CONVENTIONS[(l, "c")]))
+        for l, k_ in zip(angs, kinds_):
+            conv.setdefault((l, k_), list(HORTON2_CONVENTIONS[(l, k_)]))
         obasis = MolecularBasis(shells, conv, data.obasis.primitive_normalization)
         mo = data.mo
         if mo is not None and mo.coeffs is not None:
@@ -290,6 +291,17 @@ def apply_mod(data, mod):
             mo = MolecularOrbitals(mo.kind, mo.norba, mo.norbb, mo.occs, coeffs, mo.energies,
                                    mo.irreps, mo.occs_aminusb)
         data = attrs.evolve(data, obasis=obasis, mo=mo, one_rdms={})
+    elif op == "nonaufbau_near":
+        # occupied orbitals that are almost, but not exactly, fully occupied (1.99999 instead of 2)
+        mo = data.mo
+        occs = np.array(mo.occs, float)
+        full = 2.0 if mo.kind == "restricted" else 1.0
+        hit = np.nonzero(occs == full)[0]
+        if len(hit):
+            occs[hit[0]] = full - 1.0e-5
+            mo.occs = occs
+        else:
+            raise ValueError("no fully occupied orbital")
     elif op == "nonaufbau":
         mo = data.mo
         occs = np.array(mo.occs)
